@@ -73,6 +73,28 @@ func auxRaceC10() int {
 					c2.Run(context.Background())
 					c2.Interrupt = z80.NMIInterrupt()
 					c2.Run(context.Background())
+					// requests that are dropped or refused: without data in mode 0 / mode 2, unknown type, out-of-range
+					// IM, refused by IFF1 - at program counters that differ from CPU to CPU and from round to round
+					for q := 0; q < 6; q++ {
+						c4 := z80.CPU{Memory: mem, IO: io}
+						c4.PC, c4.SP, c4.IFF1 = uint16(0x0100+(t*50+k)%97), 0xF000, q != 5
+						c4.IM = []int{0, 2, 0, 2, 7, 1}[q]
+						switch q {
+						case 0, 1:
+							c4.Interrupt = z80.IM1Interrupt()
+						case 2, 3:
+							c4.Interrupt = &z80.Interrupt{Type: z80.IMType, Data: []uint8{}}
+						case 4:
+							c4.Interrupt = z80.IM2Interrupt(0x40)
+						case 5:
+							c4.Interrupt = &z80.Interrupt{Type: z80.InterruptType(9)}
+						}
+						func() {
+							defer func() { recover() }()
+							c4.Step()
+							c4.Step()
+						}()
+					}
 					// mode 0 and mode 2 acceptance
 					for kind := 2; kind < c10IsoReqKinds; kind++ {
 						c3 := z80.CPU{Memory: mem, IO: io}
